@@ -882,6 +882,8 @@ func verifDriverMain() {
 			reply("ok " + r.status())
 		case w[0] == "log.run":
 			reply(verifLogRun(w))
+		case w[0] == "glue.run":
+			reply(verifGlueRun(w))
 		case w[0] == "term.new" && len(w) == 1:
 			// the monitor as main() builds it (newTermMonitor: the channels are the code's own).
 			// The driver never raises real signals; TOR_PT_EXIT_ON_STDIN_CLOSE is cleared so
